@@ -2,6 +2,7 @@ package symex
 
 import (
 	"go/token"
+	"regexp"
 	"regexp/syntax"
 	"unicode"
 
@@ -290,6 +291,35 @@ func init() {
 			return tuple{cell, iface{}}
 		}
 	}
+	// replacement: evaluated by the real library when pattern, source and replacement are concrete on this path
+	// (symbolic bytes are made concrete by enumeration first, as for the other string-to-string library functions)
+	replace := func(literal bool) modelFunc {
+		return func(ex *Exec, fr *frame, pos token.Pos, args []value) value {
+			rx := ex.regexOf(args[0])
+			src, ok1 := ex.concretizeStr(args[1].(*Str)).concrete()
+			repl, ok2 := ex.concretizeStr(args[2].(*Str)).concrete()
+			if !ok1 || !ok2 {
+				panic(ex.unsupported("regexp ReplaceAll on a string that cannot be made concrete"))
+			}
+			re, err := regexp.Compile(rx.pattern)
+			if err != nil {
+				panic(ex.unsupported("regexp ReplaceAll: the pattern does not compile natively"))
+			}
+			if literal {
+				return ex.strConst(re.ReplaceAllLiteralString(src, repl))
+			}
+			return ex.strConst(re.ReplaceAllString(src, repl))
+		}
+	}
+	reg("(*regexp.Regexp).ReplaceAllString", replace(false))
+	reg("(*regexp.Regexp).ReplaceAllLiteralString", replace(true))
+	reg("regexp.QuoteMeta", func(ex *Exec, fr *frame, pos token.Pos, args []value) value {
+		c, ok := ex.concretizeStr(args[0].(*Str)).concrete()
+		if !ok {
+			panic(ex.unsupported("regexp.QuoteMeta of a string that cannot be made concrete"))
+		}
+		return ex.strConst(regexp.QuoteMeta(c))
+	})
 	reg("regexp.MustCompile", compile(true))
 	reg("regexp.Compile", compile(false))
 	reg("(*regexp.Regexp).MatchString", func(ex *Exec, fr *frame, pos token.Pos, args []value) value {
